@@ -98,10 +98,12 @@ type Map struct {
 }
 
 type Chan struct {
-	buf    []Value
-	cap    int
-	closed bool
-	name   string
+	buf       []Value
+	cap       int
+	closed    bool
+	name      string
+	seqs      []int
+	closedSeq int
 }
 
 // Opaque is an engine-native object used by stubs.
